@@ -30,17 +30,132 @@ class Verdict:
         self.model = None
 
 
-def build_solver(ob, timeout_ms=None):
+BUILTIN = set(['and', 'or', 'not', '=>', '=', 'if', '+', '-', '*', '/', '<=', '>=', '<', '>', 'to_real', 'to_int', 'is_int',
+               'select', 'store', 'true', 'false', 'distinct', 'div', 'mod', 'Int', 'Real', 'abs'])
+
+
+def _syms(f):
+    return set(n for n in spec.decl_names([f]) if n not in BUILTIN and not n[:1].isdigit() and not n.startswith('-'))
+
+
+def obligation_formulas(ob, slim=0):
+    """hypotheses + negated goal.  slim > 0: only the hypotheses that share a symbol with the goal (and the proven
+    hints), closed under `slim` rounds - dropping hypotheses is sound, it only makes the query smaller"""
+    hints = [to_z3(getattr(h, 'conclusion', None) if getattr(h, 'conclusion', None) is not None else h.goal)
+             for h in getattr(ob, 'hints', []) if h.proved]
+    goal = z3.Not(to_z3(ob.goal))
+    hyps = list(ob.pc) + list(ob.facts or [])
+    if slim:
+        want = _syms(goal)
+        for h in hints:
+            want |= _syms(h)
+        keep = [False] * len(hyps)
+        hs = [_syms(h) for h in hyps]
+        for _ in range(slim):
+            grew = False
+            for k, sy in enumerate(hs):
+                if not keep[k] and (sy & want) and len(sy) <= 12:
+                    keep[k] = True
+                    if not (sy <= want):
+                        want |= sy
+                        grew = True
+            if not grew:
+                break
+        hyps = [h for h, k in zip(hyps, keep) if k]
+    forms = hyps + hints + [goal]
+    return spec.relevant_background(forms) + forms
+
+
+ARITH_KINDS = None
+
+
+def purify(forms):
+    """quantifier-free arithmetic core: every uninterpreted application, array read, lambda or quantified
+    sub-formula is replaced by a fresh constant (the same term -> the same constant).  The result is implied by
+    nothing less than the original, i.e. proving it unsat proves the original unsat (abstraction is sound)."""
+    cache = {}
+    fresh = {}
+    keep = (z3.Z3_OP_AND, z3.Z3_OP_OR, z3.Z3_OP_NOT, z3.Z3_OP_IMPLIES, z3.Z3_OP_EQ, z3.Z3_OP_ITE, z3.Z3_OP_ADD, z3.Z3_OP_SUB,
+            z3.Z3_OP_MUL, z3.Z3_OP_DIV, z3.Z3_OP_UMINUS, z3.Z3_OP_LE, z3.Z3_OP_GE, z3.Z3_OP_LT, z3.Z3_OP_GT, z3.Z3_OP_TO_REAL,
+            z3.Z3_OP_TO_INT, z3.Z3_OP_IS_INT, z3.Z3_OP_IDIV, z3.Z3_OP_MOD, z3.Z3_OP_TRUE, z3.Z3_OP_FALSE, z3.Z3_OP_ANUM,
+            z3.Z3_OP_DISTINCT, z3.Z3_OP_XOR, z3.Z3_OP_IFF if hasattr(z3, 'Z3_OP_IFF') else z3.Z3_OP_EQ)
+
+    alive = []        # keep every visited term alive: z3 re-uses the ids of freed terms
+
+    def const_for(t):
+        k = t.get_id()
+        if k not in fresh:
+            srt = t.sort()
+            if srt.kind() not in (z3.Z3_INT_SORT, z3.Z3_REAL_SORT, z3.Z3_BOOL_SORT):
+                raise ValueError('non-arithmetic term survives')
+            fresh[k] = z3.Const('pur!%d' % len(fresh), srt)
+            alive.append(t)
+        return fresh[k]
+
+    def go(t):
+        k = t.get_id()
+        alive.append(t)
+        if k in cache:
+            return cache[k]
+        if z3.is_quantifier(t) or z3.is_var(t):
+            r = const_for(t)
+        elif z3.is_app(t):
+            if t.num_args() == 0:
+                r = t if (z3.is_int_value(t) or z3.is_rational_value(t) or z3.is_true(t) or z3.is_false(t)
+                          or t.sort().kind() in (z3.Z3_INT_SORT, z3.Z3_REAL_SORT, z3.Z3_BOOL_SORT)) else const_for(t)
+            elif t.decl().kind() in keep:
+                ch = [go(c) for c in t.children()]
+                r = t.decl()(*ch)
+            else:
+                r = const_for(t)
+        else:
+            r = const_for(t)
+        cache[k] = r
+        return r
+    out = []
+    for f in forms:
+        try:
+            # normalise first: syntactically different but simplifier-equal terms must get the same constant
+            g = go(z3.simplify(f))
+            if z3.is_bool(g):
+                out.append(g)
+        except (ValueError, z3.Z3Exception):
+            continue
+    return out
+
+
+def has_quantifier(f):
+    st = [f]
+    seen = set()
+    while st:
+        t = st.pop()
+        if t.get_id() in seen:
+            continue
+        seen.add(t.get_id())
+        if z3.is_quantifier(t):
+            if t.is_lambda():
+                continue          # lambdas only occur under uninterpreted applications, which purify() abstracts
+            return True
+        if z3.is_app(t):
+            st.extend(t.children())
+    return False
+
+
+def core_formulas(ob):
+    hints = [to_z3(getattr(h, 'conclusion', None) if getattr(h, 'conclusion', None) is not None else h.goal)
+             for h in getattr(ob, 'hints', []) if h.proved]
+    hyps = [h for h in list(ob.pc) + list(ob.facts or []) if not has_quantifier(h)]
+    goal = z3.Not(to_z3(ob.goal))
+    if has_quantifier(goal):
+        return None
+    return purify(hyps + [h for h in hints if not has_quantifier(h)] + [goal])
+
+
+def build_solver(ob, timeout_ms=None, slim=0):
     s = z3.Solver()
     if timeout_ms:
         s.set('timeout', int(timeout_ms))
-    forms = list(ob.pc) + list(ob.facts or [])
-    forms += [to_z3(getattr(h, 'conclusion', None) if getattr(h, 'conclusion', None) is not None else h.goal)
-              for h in getattr(ob, 'hints', []) if h.proved]
-    forms.append(z3.Not(to_z3(ob.goal)))
-    for ax in spec.relevant_background(forms):
-        s.add(ax)
-    for f in forms:
+    for f in obligation_formulas(ob, slim):
         s.add(f)
     return s
 
@@ -63,10 +178,18 @@ def _run_cli(cmd, path, timeout_s):
 
 def _decide(args):
     ob, path, timeout_s = args
+    total = 0.0
+    # quantifier-free arithmetic core first (cheap; uninterpreted terms abstracted): sound for unsat only
+    cp = path.replace('.smt2', '.core.smt2')
+    if os.path.exists(cp):
+        st4, sec4, _ = _run_cli([Z3_CLI, '-T:3'], cp, 3)
+        total += sec4
+        if st4 == 'unsat':
+            return Verdict(ob, 'unsat', 'z3-5.1/qf-core', total)
     st, sec, detail = _run_cli([Z3_CLI, '-T:%d' % timeout_s], path, timeout_s)
+    total += sec
     if st in ('sat', 'unsat'):
-        return Verdict(ob, st, 'z3-5.1', sec)
-    total = sec
+        return Verdict(ob, st, 'z3-5.1', total)
     if sec < 0.5 * timeout_s:
         # gave up early (incomplete quantifier reasoning): second configuration, unsat only
         st2, sec2, detail2 = _run_cli([Z3_CLI, '-T:%d' % max(2, timeout_s // 2), 'smt.mbqi=false', 'smt.auto_config=false'],
@@ -74,6 +197,19 @@ def _decide(args):
         total += sec2
         if st2 == 'unsat':
             return Verdict(ob, 'unsat', 'z3-5.1/no-mbqi', total)
+    if os.path.exists(cp):
+        st4, sec4, _ = _run_cli([Z3_CLI, '-T:%d' % max(3, timeout_s // 2)], cp, max(3, timeout_s // 2))
+        total += sec4
+        if st4 == 'unsat':
+            return Verdict(ob, 'unsat', 'z3-5.1/qf-core', total)
+    # relevance-filtered query (fewer hypotheses: sound for unsat, never used for sat)
+    for lvl in (1, 2):
+        sp = path.replace('.smt2', '.slim%d.smt2' % lvl)
+        if os.path.exists(sp):
+            st3, sec3, _ = _run_cli([Z3_CLI, '-T:%d' % max(3, timeout_s // 2)], sp, max(3, timeout_s // 2))
+            total += sec3
+            if st3 == 'unsat':
+                return Verdict(ob, 'unsat', 'z3-5.1/relevant-hyps-%d' % lvl, total)
     return Verdict(ob, 'unknown', 'z3-5.1', total, (detail or 'incomplete').strip())
 
 
@@ -101,6 +237,20 @@ def discharge(obligations, timeout_s=10, jobs=16, keep_dir=None):
                 path = os.path.join(tmp, 'q%04d.smt2' % k)
                 with open(path, 'w') as fh:
                     fh.write(s.to_smt2())
+                try:
+                    cf = core_formulas(ob)
+                except Exception:
+                    cf = None
+                if cf:
+                    sc = z3.Solver()
+                    for f in cf:
+                        sc.add(f)
+                    with open(path.replace('.smt2', '.core.smt2'), 'w') as fh:
+                        fh.write(sc.to_smt2())
+                if len(ob.pc) + len(ob.facts or []) > 12:
+                    for lvl in (1, 2):
+                        with open(path.replace('.smt2', '.slim%d.smt2' % lvl), 'w') as fh:
+                            fh.write(build_solver(ob, slim=lvl).to_smt2())
                 t = timeout_s if ob.kind != 'hint' else min(timeout_s, 10)
                 work.append((k, (ob, path, t)))
             with ThreadPoolExecutor(max_workers=jobs) as ex:
